@@ -604,8 +604,21 @@ int main(int argc, char** argv) {
           throw;
         }
         PS.on = false;
-      } else if (kind == "pslog")
-        treatPlaneStress(b, c, r, false);
+      } else if (kind == "pslog") {
+        PS.on = true;
+        PS.log = true;
+        PS.axis = b.N == 1 ? 1 : 2;
+        try {
+          treatPoint(b, c, r, false);
+        } catch (...) {
+          PS.on = false;
+          throw;
+        }
+        PS.on = false;
+        Json full = r;
+        treatPlaneStress(b, c, r, false);   // the three stress-only requests and the axial strain written back
+        r.set("pscalls", r["calls"]).set("calls", full["calls"]);
+      }
       else
         treatPoint(b, c, r, kind == "gl");
     } catch (std::exception& e) {
